@@ -32,3 +32,22 @@ func (q *Query) VerifDump() map[string]interface{} {
 		"outfile": outfile, "logformat": q.LogFormat,
 	}
 }
+
+// VerifRows returns the result rows (values in select order) of a global group set, ordered and
+// limited the way the writers do it.
+func (g *GlobalGroupSet) VerifRows(query *Query) ([][]string, error) {
+	g.semaphore <- struct{}{}
+	defer func() { <-g.semaphore }()
+	rows, _, err := g.GroupSet.result(query, false)
+	if err != nil {
+		return nil, err
+	}
+	out := [][]string{}
+	for i, r := range rows {
+		if i == query.Limit {
+			break
+		}
+		out = append(out, append([]string{r.groupKey}, r.values...))
+	}
+	return out, nil
+}
